@@ -92,6 +92,13 @@ class Repo:
                         ci["attrs"][s2.targets[0].id] = s2.value
                     elif isinstance(s2, ast.AnnAssign) and isinstance(s2.target, ast.Name) and s2.value is not None:
                         ci["attrs"][s2.target.id] = s2.value
+                    elif isinstance(s2, ast.Assign) and len(s2.targets) == 1 and isinstance(s2.targets[0], ast.Tuple) \
+                            and all(isinstance(t, ast.Name) for t in s2.targets[0].elts):
+                        # (A, B, ...) = expr  : A is list(expr)[0], B is list(expr)[1], ...
+                        for i_, t_ in enumerate(s2.targets[0].elts):
+                            e_ = ast.parse("list(X)[%d]" % i_, mode="eval").body
+                            e_.value.args[0] = s2.value
+                            ci["attrs"][t_.id] = ast.fix_missing_locations(ast.copy_location(e_, s2))
                 mi.classes[st.name] = ci
             elif isinstance(st, ast.Import):
                 for a in st.names:
